@@ -405,7 +405,7 @@ var malformedLines = []string{
 }
 
 func genC15(rt *rapid.T) c15Case {
-	c := c15Case{Kind: pick(rt, "kind", []string{"interleaved", "interleaved", "malformed", "encoder_fail", "bad_login_pid", "invalid_login"})}
+	c := c15Case{Kind: pick(rt, "kind", []string{"interleaved", "interleaved", "malformed", "encoder_fail", "encoder_fail_during_login", "bad_login_pid", "invalid_login", "invalid_login_pending_session"})}
 	// a correlated session s1 (login first) with n events, up to three
 	// concurrently open kernel events
 	n := rapid.IntRange(2, 9).Draw(rt, "n")
@@ -453,6 +453,11 @@ func genC15(rt *rapid.T) c15Case {
 			c.BadLine = l[:rapid.IntRange(1, imin(len(l), 40)).Draw(rt, "cut")]
 		}
 		c.BadAt = rapid.IntRange(0, total).Draw(rt, "badAt")
+	case "encoder_fail_during_login":
+		c.FailAt = rapid.IntRange(1, len(c.Events)).Draw(rt, "failAt")
+	case "invalid_login_pending_session":
+		c.Login = "empty_cred"
+		c.LoginAt = rapid.IntRange(1, total).Draw(rt, "loginAt")
 	case "encoder_fail":
 		c.FailAt = rapid.IntRange(1, len(c.Events)).Draw(rt, "failAt")
 		// the login may arrive after some records: the failure then hits the
@@ -468,6 +473,12 @@ func genC15(rt *rapid.T) c15Case {
 }
 
 func execC15(c c15Case) Outcome {
+	if c.Kind == "encoder_fail_during_login" {
+		return execC15FailDuringLogin(c)
+	}
+	if c.Kind == "invalid_login_pending_session" {
+		return execC15InvalidLoginPending(c)
+	}
 	rec := &Rec{}
 	if c.Kind == "encoder_fail" {
 		rec.FailAt = c.FailAt
@@ -636,6 +647,116 @@ func c15SequentialReference(events []audEvent) (map[int]string, error) {
 		out[evIndexOf(e.Ev.LoggedAt)] = canonEvent(e.Ev)
 	}
 	return out, nil
+}
+
+// execC15FailDuringLogin: the event write fails while the Read loop is busy
+// handling a (different) login, i.e. not parked in its select. The failure must
+// still stop the processor.
+func execC15FailDuringLogin(c c15Case) Outcome {
+	rec := &Rec{FailAt: c.FailAt}
+	rig := newReadRig(rec)
+	defer rig.stop()
+	if err := rig.login(loginFor(0, hop{K: "login", P: 1})); err != nil {
+		return fail("login: %v", rig.exitErr)
+	}
+	if err := rig.loginBarrier(); err != nil {
+		return fail("barrier: %v", rig.exitErr)
+	}
+	// at the failing Encode call: let another login reach the Read loop first
+	// (it blocks behind the correlator's mutex held by the event being written)
+	inEncode := make(chan struct{})
+	release := make(chan struct{})
+	rec.Hook = func() {
+		if rec.Calls()+1 == c.FailAt {
+			close(inEncode)
+			<-release
+		}
+	}
+	stop := make(chan struct{})
+	defer close(stop)
+	fed := make(chan struct{})
+	go func() {
+		defer close(fed)
+		for _, ae := range c.Events {
+			for _, l := range ae.Lines {
+				select {
+				case rig.audits <- l:
+				case <-stop:
+					return
+				}
+			}
+		}
+		// barrier: accepted only after the last record was fully processed
+		select {
+		case rig.audits <- "":
+		case <-stop:
+		}
+	}()
+	select {
+	case <-inEncode:
+	case <-fed:
+		return fail("the whole stream was accepted without reaching event write %d (%d events written)", c.FailAt, rec.Len())
+	case <-time.After(rigGuard):
+		panic(&infraError{"failing Encode not reached"})
+	}
+	other := loginFor(50, hop{K: "login", P: 7})
+	select {
+	case rig.logins <- other:
+	case <-time.After(20 * time.Millisecond):
+		// the Read loop is still busy with the previous (barrier) login, which is
+		// blocked behind the correlator's mutex: that is the state wanted here
+	}
+	time.Sleep(300 * time.Microsecond) // let the Read loop enter the correlator
+	close(release)
+	err, ok := rig.waitExit(5 * time.Second)
+	if !ok {
+		return fail("event write %d failed while a login was being handled: the failure was dropped and Read kept running for 5s", c.FailAt)
+	}
+	if err == nil || !errors.Is(err, errInjected) {
+		return fail("event write %d failed while a login was being handled: Read returned %v, want an error wrapping the write error", c.FailAt, err)
+	}
+	return Outcome{NT: true, Labels: []string{"kind:" + c.Kind}}
+}
+
+// execC15InvalidLoginPending: an invalid login whose PID matches an open,
+// still uncorrelated session must stop the processor like any invalid login.
+func execC15InvalidLoginPending(c c15Case) Outcome {
+	rig := newReadRig(nil)
+	defer rig.stop()
+	sent := 0
+	for _, e := range c.Order {
+		_ = e
+		break
+	}
+	// deliver whole events (records in kernel order) until LoginAt lines were sent
+	for _, ae := range c.Events {
+		for _, l := range ae.Lines {
+			if err := rig.line(l); err != nil {
+				return fail("Read exited with %v on a well-formed stream", rig.exitErr)
+			}
+			sent++
+		}
+		if sent >= c.LoginAt {
+			break
+		}
+	}
+	if err := rig.auditBarrier(); err != nil {
+		return fail("Read exited with %v on a well-formed stream", rig.exitErr)
+	}
+	bad := loginFor(0, hop{K: "login", P: 1}) // the pid of the pending session's LOGIN record
+	bad.CredUserID = ""
+	if err := rig.login(bad); err != nil {
+		return fail("Read exited before the invalid login was sent: %v", rig.exitErr)
+	}
+	err, ok := rig.waitExit(5 * time.Second)
+	if !ok {
+		return fail("invalid login (empty credential) for the pid of a pending session: Read kept running (%d events written)", rig.rec.Len())
+	}
+	var ste *sessiontracker.SessionTrackerError
+	if err == nil || !errors.As(err, &ste) || !ste.RemoteLoginFailed() {
+		return fail("invalid login (empty credential) for the pid of a pending session: Read returned %v, want the login validation failure", err)
+	}
+	return Outcome{NT: true, Labels: []string{"kind:" + c.Kind}}
 }
 
 func c15CheckExit(c c15Case, err error) Outcome {
